@@ -85,6 +85,7 @@ def noserver_upstream_block(tier, fam="F-noserver-block", ps=True):
     K = 2 if tier == "quick" else 3
     out = []
     ups = [("inf", {"c": "inf"}), ("slotted", {"c": {"slotted": {"slots": [1.0, 2.0], "sizes": [2, 2], "capacitated": False, "preempt": False}}}),
+           ("slotted-cap-resume", {"c": {"slotted": {"slots": [1.0, 1.5, 3.0], "sizes": [2, 1, 2], "capacitated": True, "preempt": "resume"}}}),
            ("ps", {"c": "inf", "ps": True})]
     for name, nk in ups:
         if name == "ps" and not ps:
